@@ -231,6 +231,21 @@ pub fn component(
                 Err(e) => err = Some(format!("{:?}", e)),
             }
         }
+        "point_predicates" => {
+            // the dependency's predicates on the same symbolic point, one after the other:
+            // the recorded comparisons identify each predicate in other paths
+            let e = sym_extended(ctx, "p");
+            let z0 = e.get_z() == BlsScalar::zero();
+            ret.push(("z_is_zero".into(), json!(z0)));
+            crate::mark("on_curve");
+            let oc = bool::from(e.is_on_curve());
+            crate::mark("torsion_free");
+            let tf = bool::from(e.is_torsion_free());
+            crate::mark("identity");
+            let id = bool::from(e.is_identity());
+            crate::mark("end");
+            ret.push(("results".into(), json!([oc, tf, id])));
+        }
         _ => {
             err = Some(format!("unknown component {name}"));
         }
@@ -258,20 +273,41 @@ fn one_run(ctx: &mut Ctx, args: &[String]) -> Value {
 pub fn run(ctx: &mut Ctx, args: &[String]) {
     #[cfg(feature = "sym")]
     {
-        let max_paths = 64;
+        if std::env::var("VERIF_PREDICATES").is_ok() {
+            // the dependency's point predicates on the same symbolic point, in the same arena
+            // (hash-consing gives the same node ids to the same comparisons in every path)
+            dusk_bls12_381::sym::begin_run(&[], false);
+            let e = sym_extended(ctx, "p");
+            let mut marks = vec![];
+            let mut at = |name: &str| {
+                let (_t, path) = dusk_bls12_381::sym::end_run();
+                marks.push(json!({"mark": name, "at": path.len()}));
+            };
+            let _ = e.get_z() == BlsScalar::zero();
+            at("torsion_free");
+            let _ = bool::from(e.is_torsion_free());
+            at("identity");
+            let _ = bool::from(e.is_identity());
+            at("end");
+            let (_t, path) = dusk_bls12_381::sym::end_run();
+            ctx.out_json("predicates", json!({"path": crate::path_json(&path), "marks": marks}));
+        }
+        let max_paths = std::env::var("VERIF_MAX_PATHS").ok().and_then(|s| s.parse().ok()).unwrap_or(64);
         let mut paths = vec![];
         // first make sure variables exist in a stable order
         let (res, complete) = dusk_bls12_381::sym::explore(max_paths, true, || one_run(ctx, args));
-        for (taken, path, r, _ev) in res {
+        for (taken, path, r, ev) in res {
             let (result, panic) = match r {
                 Ok(v) => (v, Value::Null),
                 Err(m) => (Value::Null, json!(m)),
             };
+            let events: Vec<Value> = ev.iter().map(|e| serde_json::from_str(e).unwrap_or(json!(e))).collect();
             paths.push(json!({
                 "decisions": taken,
                 "path": crate::path_json(&path),
                 "layout": result,
                 "panic": panic,
+                "events": events,
             }));
         }
         ctx.out_json("paths", Value::Array(paths));
